@@ -52,6 +52,8 @@ type Loc struct {
 	Global  *ssa.Global
 	Path    []pathStep
 	Ty      types.Type // type of the value stored at the location
+	SliceT  Term       // LElem reached through a slice value: the slice and the relative index
+	RelIdx  Term
 }
 
 func (l *Loc) withStep(s pathStep, ty types.Type) *Loc {
